@@ -26,7 +26,7 @@ meta = {
         "demo_with_change_rc": int(m.group(3)),
         "commands": ["cargo test --offline --test demo   (demo.rs copied to tests/demo.rs)", "git apply patch.diff", "cargo nextest run --workspace --no-fail-fast --offline", "cargo test --offline --test demo"],
     },
-    "checks_run": "tools/try_seed.sh patch.diff quick <checks> (applies to /repo, runs ./check.sh, restores /repo)",
+    "checks_run": "tools/try_seed_scratch.sh patch.diff quick <checks> (the change is applied in a scratch worktree and the harness built against it in a scratch directory; /repo untouched)",
     "detected_by": [] if detected == "MISSED" else [{"check": d.split(":", 1)[0], "signature": d.split(":", 1)[1] if ":" in d else ""} for d in detected.split(";")],
     "note": note,
 }
